@@ -59,6 +59,8 @@ def make_long_case(rng, gen, slot):
     case['C'] = {'cols': ['_id', 'l_id', 'r_id', 'extra'],
                  'rows': [[ids[j], c[0], c[1], 'e%d' % j] for j, c in enumerate(cand)],
                  'index': rng.choice([list(range(len(cand))), [3] * len(cand)])}
+    # key columns of the candidate set in a dtype other than the tables' int64 key columns
+    case['ckdtype'] = ['int64', 'int32', 'Int64', 'object'][(len(cand) + gen['jobs']) % 4]
     if kind == 'matcher':
         case.update(sc=1, tokmode=1, lout=['a'], rout=None, lpre='l_', rpre='r_', simfn='plain')
     else:
@@ -133,11 +135,14 @@ def make_case(rng, gen, slot):
     return case
 
 
-def make_df_cand(spec):
+def make_df_cand(spec, kdtype=None):
     df = pd.DataFrame(spec['rows'], columns=spec['cols'])
     if not spec['rows']:
         df = pd.DataFrame({c: pd.Series([], dtype=object if c == 'extra' else 'int64') for c in spec['cols']})
     df.index = list(spec['index'])
+    if kdtype and kdtype != 'int64':
+        for c in ('l_id', 'r_id'):
+            df[c] = df[c].astype(kdtype)
     return df
 
 
@@ -150,7 +155,7 @@ def run_case(item):
     rattr = case.get('rattr', 'm')
     ltable = record.make_df(case['L'], 'm')
     rtable = ltable if case.get('selfjoin') else record.make_df(case['R'], 'm')
-    cand = make_df_cand(case['C'])
+    cand = make_df_cand(case['C'], case.get('ckdtype'))
     tok = record.make_tokenizer(case['tok'])
     snaps = [record.snapshot(d) for d in (ltable, rtable, cand)]
     fb = int(bool(tok.get_return_set()))
@@ -274,7 +279,13 @@ def run(tier, seed):
         raise runner.MachineryError('GenCandsets: %d GEN records for %d states' % (len(gens), res.distinct))
     cases = []
     for gi, gen in enumerate(gens):
-        for slot in range(slots if gen.get('kind') != 'long' else 2):
+        if gen.get('kind') != 'long':
+            slot_list = range(slots)
+        elif len(gen['C']) <= 16:
+            slot_list = range(4)
+        else:
+            slot_list = [(len(gen['C']) % 2) * 2, (len(gen['C']) % 2) * 2 + 1]
+        for slot in slot_list:
             rng = random.Random('%s|%s|%d|%d' % (seed, cfg, gi, slot))
             c = make_case(rng, gen, slot)
             c['_src'] = '%s#%d.%d' % (cfg, gi, slot)
@@ -300,7 +311,10 @@ def run(tier, seed):
                           'TraceMatcher: %d traces in %d TLC runs' % (len(recs), stats['tlc_runs'])],
             'rule': 'every sequence of distinct key pairs over 2x2 keys up to the length bound x every set of '
                     'missing rows (TLC, spec/GenCandsets.tla), each under seeded configurations (6 operators, score '
-                    'classes t-d/t/t+d, tokenizer or none, bound-method or plain similarity, five filters, n_jobs 1-4)'}
+                    'classes t-d/t/t+d, tokenizer or none, bound-method or plain similarity, five filters, n_jobs 1-4); '
+                    'long candidate sets over 4x4 keys for every (length, jobs) combination up to the bounds of the '
+                    'configuration (jobs beyond the processor count, key columns as int64/int32/Int64/object, '
+                    'self-joins on one DataFrame object)'}
 
 
 def replay(case):
